@@ -188,15 +188,37 @@ Definition k_status (s : kstatus) : bytes :=
   | StNotCharging => bs "Not charging" | StUnknown => bs "Unknown"
   end ++ [10].
 
-Record kbat := { kb_now : kalt; kb_power : kalt; kb_full : kalt; kb_tte : kf bytes;
+(* power_supply integer attributes are SIGNED (ABI/testing/sysfs-class-power): fuel gauges (bq27xxx, sbs-battery,
+   Chromebook / Android drivers) report a negative current_now / power_now while discharging and
+   time_to_empty_now = -1 when unknown; the text may carry a '+', and surrounding blanks *)
+Inductive sgn := SgNone | SgPlus | SgMinus.
+Record snum := { sn_lead : bytes; sn_sign : sgn; sn_digits : bytes; sn_trail : bytes }.
+Definition is_blank (c : Z) : bool := (c =? 32) || (c =? 9).
+Definition snum_ok (x : snum) : bool :=
+  forallb is_blank (sn_lead x) && is_dec (sn_digits x) && forallb is_blank (sn_trail x).
+Definition sgn_bytes (g : sgn) : bytes := match g with SgNone => [] | SgPlus => [43] | SgMinus => [45] end.
+Definition k_snum (x : snum) : bytes := sn_lead x ++ sgn_bytes (sn_sign x) ++ sn_digits x ++ sn_trail x ++ [10].
+Definition snum_val (x : snum) : Z :=
+  match sn_sign x with SgMinus => - dec_val (sn_digits x) | _ => dec_val (sn_digits x) end.
+
+(* a battery quantity under its two alternative names *)
+Record salt := { s_first : kf snum; s_second : kf snum }.
+Definition salt_ok (a : salt) : bool := kf_ok snum_ok (s_first a) && kf_ok snum_ok (s_second a).
+Definition spec_salt (a : salt) : option Z :=
+  match s_first a with
+  | Present x => Some (snum_val x)
+  | _ => match s_second a with Present x => Some (snum_val x) | _ => None end
+  end.
+
+Record kbat := { kb_now : salt; kb_power : salt; kb_full : salt; kb_tte : kf snum;
                  kb_capacity : kf bytes; kb_status : kf kstatus }.
 Definition kbat_ok (b : kbat) : bool :=
-  kalt_ok (kb_now b) && kalt_ok (kb_power b) && kalt_ok (kb_full b) && dec_ok (kb_tte b) && dec_ok (kb_capacity b).
+  salt_ok (kb_now b) && salt_ok (kb_power b) && salt_ok (kb_full b) && kf_ok snum_ok (kb_tte b) && dec_ok (kb_capacity b).
 Definition bat_files (b : kbat) : batfiles :=
-  {| b_energy_now := to_fres k_dec (a_first (kb_now b)); b_charge_now := to_fres k_dec (a_second (kb_now b));
-     b_power_now := to_fres k_dec (a_first (kb_power b)); b_current_now := to_fres k_dec (a_second (kb_power b));
-     b_energy_full := to_fres k_dec (a_first (kb_full b)); b_charge_full := to_fres k_dec (a_second (kb_full b));
-     b_time_to_empty := to_fres k_dec (kb_tte b); b_capacity := to_fres k_dec (kb_capacity b);
+  {| b_energy_now := to_fres k_snum (s_first (kb_now b)); b_charge_now := to_fres k_snum (s_second (kb_now b));
+     b_power_now := to_fres k_snum (s_first (kb_power b)); b_current_now := to_fres k_snum (s_second (kb_power b));
+     b_energy_full := to_fres k_snum (s_first (kb_full b)); b_charge_full := to_fres k_snum (s_second (kb_full b));
+     b_time_to_empty := to_fres k_snum (kb_tte b); b_capacity := to_fres k_dec (kb_capacity b);
      b_status := to_fres k_status (kb_status b) |}.
 
 (* mains adapter "online" attribute: "1\n" / "0\n" ; AC0 is looked at before AC *)
@@ -216,11 +238,12 @@ Definition spec_plugged (ac0 ac : kf bool) (st : kf kstatus) : option bool :=
   end.
 
 (* percent = now/full*100 (0 when full is 0), else the kernel's own "capacity";
-   seconds left = now/power*3600, UNLIMITED on mains, UNKNOWN when it cannot be computed;
+   seconds left = now/|power|*3600 (whole seconds; the sign of power_now / current_now only tells the direction of
+   the flow), UNLIMITED on mains, UNKNOWN when it cannot be computed (power 0 or unknown);
    None when there is nothing to compute a percentage from *)
 Definition spec_battery (b : kbat) (ac0 ac : kf bool) : option battery :=
   let percent :=
-    match spec_alt (kb_full b), spec_alt (kb_now b) with
+    match spec_salt (kb_full b), spec_salt (kb_now b) with
     | Some f, Some n => Some (if f =? 0 then 0%Q else (100 * inject_Z n / inject_Z f)%Q)
     | _, _ => match kb_capacity b with Present ds => Some (inject_Z (dec_val ds)) | _ => None end
     end in
@@ -232,19 +255,32 @@ Definition spec_battery (b : kbat) (ac0 ac : kf bool) : option battery :=
       match plugged with
       | Some true => POWER_TIME_UNLIMITED
       | _ =>
-        match spec_alt (kb_now b), spec_alt (kb_power b) with
-        | Some n, Some w => if w =? 0 then POWER_TIME_UNKNOWN else (n * 3600) / w
+        match spec_salt (kb_now b), spec_salt (kb_power b) with
+        | Some n, Some w => if w =? 0 then POWER_TIME_UNKNOWN else Z.quot (n * 3600) (Z.abs w)
         | _, _ => POWER_TIME_UNKNOWN
         end
       end in
     Some {| bt_percent := p; bt_secsleft := secs; bt_plugged := plugged |}
   end.
 
-(* the property text says nothing about time_to_empty_now: batteries where psutil would
-   use it (now or power unknown, file present) are outside the specification *)
+(* the property text says nothing about time_to_empty_now: batteries where psutil would use a non-negative value
+   of it (now or power unknown, file present) are outside the specification; a negative value (-1 = unknown)
+   means UNKNOWN, as the specification says anyway *)
 Definition tte_unused (b : kbat) : bool :=
-  negb (is_present (kb_tte b))
-  || match spec_alt (kb_now b), spec_alt (kb_power b) with Some _, Some _ => true | _, _ => false end.
+  match kb_tte b with Present x => snum_val x <? 0 | _ => true end
+  || match spec_salt (kb_now b), spec_salt (kb_power b) with Some _, Some _ => true | _, _ => false end.
+
+(* finding: a NEGATIVE power_now / current_now (discharging, as signed fuel gauges report it) that is actually used
+   (not on mains, energy known) and large enough for a non-zero answer *)
+Definition neg_power_matters (b : kbat) (ac0 ac : kf bool) : bool :=
+  match spec_plugged ac0 ac (kb_status b) with
+  | Some true => false
+  | _ =>
+    match spec_salt (kb_now b), spec_salt (kb_power b) with
+    | Some n, Some w => (w <? 0) && negb (Z.quot (n * 3600) (Z.abs w) =? 0)
+    | _, _ => false
+    end
+  end.
 
 (* /sys/class/power_supply: entries in directory order; None = not a battery (mains, USB, ...) *)
 Definition supply := list (bytes * option kbat).
